@@ -252,7 +252,12 @@ def qdicts(desc, prefer_adaptive=False):
           # quantizers None), hides the class entry for every other kind
           qd[ld["name"]] = {}
           continue
-        inner = ld["kw"]["layer"]["cls"] if ld["cls"] == "Bidirectional" else None
+        inner = None
+        if ld["cls"] == "Bidirectional":
+          inner = ld["kw"]["layer"]["cls"]
+          bw = ld["kw"].get("backward_layer")
+          if bw and bw["cls"] != "SimpleRNN":
+            inner = bw["cls"]       # the wider role set of the two directions
         prim, sec = roles_of(ld["cls"], inner)
         qd[ld["name"]] = entry(prim, sec, mode)
       elif ld["cls"] == "Activation":
